@@ -912,6 +912,13 @@ func (e *MetaCDC) startInternal(info *meta.TaskInfo, ignoreUpdateState bool) err
 			positionTs := uint64(0)
 			if positionInfo.Time > 0 {
 				positionTs = tsoutil.ComposeTS(positionInfo.Time+1, 0)
+				if positionInfo.SourceTs > 0 && positionInfo.SourceTs < positionTs {
+					// the Time is the time of the target channel, which is later than the source time of the pack if other
+					// collections of the channel are ahead. The messages after the source time of the last replicated pack
+					// should be read again, and the time of the target channel is the start of the channel clock.
+					collectionStartsTs[positionChannel] = positionTs
+					positionTs = positionInfo.SourceTs
+				}
 			} else if positionInfo.StartTime > 0 {
 				collectionStartsTs[positionChannel] = tsoutil.ComposeTS(positionInfo.StartTime+1, 0)
 			}
@@ -1282,7 +1289,8 @@ func (e *MetaCDC) startReplicateDMLMsg(replicateCtx context.Context, entity *Rep
 				replicateMetric(taskID, streamChannelName, msgPack, metrics.OPTypeWrite)
 
 				metaPosition := &meta.PositionInfo{
-					Time: msgTime,
+					Time:     msgTime,
+					SourceTs: replicateMsg.SourceEndTs,
 					DataPair: &commonpb.KeyDataPair{
 						Key:  streamChannelName,
 						Data: position,
